@@ -319,48 +319,54 @@ def build_chaos(ctx):
     return so
 
 
+def undriven_one(impl, drv, so, base, case, chaos_seed):
+    """One undriven execution of a case under the delay shim; returns (serialisable?, final bytes, reports)."""
+    import shutil, tempfile
+    work = tempfile.mkdtemp(dir=base)
+    path = os.path.join(work, 'step.csv')
+    open(path, 'wb').write(bytes.fromhex(case['init']))
+    procs = []
+    env = dict(os.environ, LD_PRELOAD=so, CHAOS_MAX_US='3000', CHAOS_SEED=str(chaos_seed))
+    env.pop('ROBSD_VERIF_SYNC', None)
+    for i, o in enumerate(case['ops']):
+        if o['kind'] == 'w':
+            args = [os.path.join(impl, 'robsd-step'), '-W', '-f', path, '-i', o['id'], '--'] + o['kvs']
+            procs.append(subprocess.Popen(args, env=env, stdin=subprocess.DEVNULL, stdout=subprocess.PIPE, stderr=subprocess.PIPE))
+        else:
+            args = [os.path.join(impl, 'robsd-step'), '-R', '-f', path, '-' + o['how'], o['arg']]
+            p = subprocess.Popen(args, env=env, stdin=subprocess.PIPE, stdout=subprocess.PIPE, stderr=subprocess.PIPE)
+            p.stdin.write(o['template'].encode())
+            p.stdin.close()
+            procs.append(p)
+    reps = []
+    for p in procs:
+        try:
+            p.wait(timeout=20)
+            reps.append('%d:%s' % (p.returncode, hexs(p.stdout.read())))
+        except subprocess.TimeoutExpired:
+            p.kill()
+            reps.append('999:-')
+    final = open(path, 'rb').read()
+    shutil.rmtree(work, ignore_errors=True)
+    optoks = [str(len(case['ops']))]
+    for o in case['ops']:
+        optoks += op_toks(o)
+    a = common.run_driver(drv, [' '.join(['serial', case['init'] or '-', hexs(final)] + optoks + reps)])[0]
+    return a == '1', final, reps
+
+
 def undriven(ctx, impl, drv, res, rounds):
     """No sync points: all processes of a case are started at once under the delay shim; only the serialisability
     oracle applies (there is no event trace to replay on the model)."""
-    import shutil, tempfile
     so = build_chaos(ctx)
     base = ctx.mkscratch('c02u')
     for k in range(rounds):
         case = gen_case(ctx.rng)
         case['sched'] = []
-        work = tempfile.mkdtemp(dir=base)
-        path = os.path.join(work, 'step.csv')
-        open(path, 'wb').write(bytes.fromhex(case['init']))
-        procs = []
-        env = dict(os.environ, LD_PRELOAD=so, CHAOS_MAX_US='3000', CHAOS_SEED=str(ctx.seed * 100003 + k))
-        env.pop('ROBSD_VERIF_SYNC', None)
-        for i, o in enumerate(case['ops']):
-            if o['kind'] == 'w':
-                args = [os.path.join(impl, 'robsd-step'), '-W', '-f', path, '-i', o['id'], '--'] + o['kvs']
-                procs.append(subprocess.Popen(args, env=env, stdin=subprocess.DEVNULL, stdout=subprocess.PIPE, stderr=subprocess.PIPE))
-            else:
-                args = [os.path.join(impl, 'robsd-step'), '-R', '-f', path, '-' + o['how'], o['arg']]
-                p = subprocess.Popen(args, env=env, stdin=subprocess.PIPE, stdout=subprocess.PIPE, stderr=subprocess.PIPE)
-                p.stdin.write(o['template'].encode())
-                p.stdin.close()
-                procs.append(p)
-        reps = []
-        for p in procs:
-            try:
-                p.wait(timeout=20)
-                reps.append('%d:%s' % (p.returncode, hexs(p.stdout.read())))
-            except subprocess.TimeoutExpired:
-                p.kill()
-                reps.append('999:-')
-        final = open(path, 'rb').read()
-        shutil.rmtree(work, ignore_errors=True)
-        optoks = [str(len(case['ops']))]
-        for o in case['ops']:
-            optoks += op_toks(o)
-        a = common.run_driver(drv, [' '.join(['serial', case['init'] or '-', hexs(final)] + optoks + reps)])[0]
+        ok, final, reps = undriven_one(impl, drv, so, base, case, ctx.seed * 100003 + k)
         res.evaluations += 1
         res.count('undriven procs=%d' % len(case['ops']))
-        if a != '1':
+        if not ok:
             res.oracle_failures.append({'case': dict(case, undriven=True, chaos_seed=ctx.seed * 100003 + k), 'signature': 'not-serialisable',
                                         'what': 'undriven run under the delay shim: final file / reports of %d concurrent robsd-step processes equal no serial order' % len(case['ops']),
                                         'final': final.decode('latin1'), 'reports': reps})
@@ -392,6 +398,18 @@ def extended_search(ctx, res, proof):
 def replay(ctx, rep):
     case = rep.get('case') or (rep.get('first_disagreements') or [{}])[0].get('case')
     res = common.Result()
+    if case.get('undriven'):
+        # a race without sync points: re-execute the same processes under the delay shim, the recorded delay seed
+        # first and then further seeds; the replay fails as soon as one execution equals no serial order
+        impl, drv, so, base = ctx.build_impl(), ctx.build_driver('lk'), build_chaos(ctx), ctx.mkscratch('c02u')
+        for k in range(200):
+            ok, final, reps = undriven_one(impl, drv, so, base, case, case.get('chaos_seed', 0) + k)
+            if not ok:
+                print('case:', json.dumps(case))
+                print('attempt %d: final file %r reports %r equal no serial order' % (k, final, reps))
+                return 1
+        print('200 undriven executions were all serialisable')
+        return 0
     evaluate(ctx, [case], res)
     print('case:', json.dumps(case))
     print('disagreements:', res.disagreements)
